@@ -10,6 +10,7 @@ import (
 	"os"
 	"path/filepath"
 	"sync"
+	"time"
 	"math"
 	"math/big"
 	"sort"
@@ -22,6 +23,10 @@ import (
 )
 
 type parseState struct{}
+
+// a call that has not returned after this long is reported as a hang (C09)
+const hangLimit = 4 * time.Second
+
 
 func optInt(p *int) string {
 	if p == nil {
@@ -187,19 +192,31 @@ func (p *parseState) line(toks []string) (string, bool) {
 		data := []byte(unhex(toks[1]))
 		// 1. the real ParseData
 		res := ""
-		func() {
+		done := make(chan string, 1)
+		go func() {
+			r := ""
 			defer func() {
 				if e := recover(); e != nil {
-					res = "panic"
+					r = "panic"
 				}
+				done <- r
 			}()
 			c, err := ParseData(data)
 			if err != nil {
-				res = "err"
+				r = "err"
 			} else {
-				res = dumpConfig(c)
+				r = dumpConfig(c)
 			}
 		}()
+		select {
+		case res = <-done:
+		case <-time.After(hangLimit):
+			// the call did not return: reported as "hang"; the goroutine is abandoned
+			res = "hang"
+		}
+		if res == "hang" {
+			return "hang ;;; -", true
+		}
 		// 2. the decoded structure, with the decoder set up as ParseData sets it up
 		ser := "-"
 		func() {
